@@ -6,7 +6,9 @@ DRIVER = "drv_c18"
 def run(c):
     c.rule = ("one case = one history on a gofs memory fs: 1-3 writer sessions (ReadAll from 0 or from a commit with/without its "
               "snapshot meta, WriteLoop, batches of 0-5 Append/AppendASAP incl. wrong-offset and after-stop appends, one writer "
-              "loop iteration per batch, shutdown) with MaxChunkSize 60..1100 (rotation every few events) or, every 12th case "
+              "loop iteration per batch; shutdown with an empty buffer or, every other session, through a shutdown window: appends "
+              "still buffered at RequestShutdown, an append after RequestShutdown before the writer ran, and an append made from "
+              "inside the writer's Engine.Commit call that follows the shutdown request) with MaxChunkSize 60..1100 (rotation every few events) or, every 12th case "
               "(10th in thorough), 20000..2^20 with 1-70 KB payloads (crc records every 64 KiB, read buffer growth); then "
               "read-only replays of the final files: from 0, from every commit with its meta / without / with an older meta, "
               "from event boundaries, malformed (wrong engine offset, meta ahead of start, corrupted meta, unaligned start), "
@@ -23,7 +25,8 @@ def run(c):
         "from the bytes the real code produced; the reader never looks at the hashes",
         "the reader's 64 KiB buffer is idealised (one loop iteration sees the whole rest of the file); justified for engines "
         "whose Apply answers NotEnoughData on a strict prefix of an event (the stub does); buffer growth past 64 KiB is "
-        "exercised by 20-70 KB payloads in the big cases",
+        "exercised by 20-70 KB payloads in the big cases; the malformed reads with a wrong engine offset are not "
+        "generated for those cases (engine ahead of the reader + event larger than the buffer re-parses mid-event)",
         "events use the stub engine's framing magic(4) len(4) body pad-to-4 with a magic that is not a service magic; one "
         "event per Apply; the engine tracks its own offset (Skip/Apply) as the repo's TestEngineImpl does",
         "replica mode (fsnotify loop), pid-change mode, compressed chunks (kfs zip), lev_set_persistent_config_value and "
@@ -75,7 +78,8 @@ META = {
              "the running checksum is upd crc0 (bytes read) and a crc record is rejected iff the stored value differs; "
              "(commit_monotone, commit_le_fsynced) for every schedule of appends and writer-loop iterations commit offsets "
              "never decrease and never exceed the bytes that are in the files and covered by an fsync (invariant FsInv: buffer "
-             "accounting + rotatePos well-formedness); (apNext_buff) the layout used by the replay theorems is byte for byte "
+             "accounting + rotatePos well-formedness); (append_after_stop_refused_or_durable) after the iteration that sees the "
+             "shutdown request every accepted byte is in the files and fsynced and every later Append is refused; (apNext_buff) the layout used by the replay theorems is byte for byte "
              "what putLevToBuffer appends; (putLev_no_panic) a writer restarted inside the first chunk never takes the "
              "out-of-range hashBuff2 slice. The model is tied to the code by replaying generated histories (sessions, rotations, "
              "crc records, resumes, truncations, bit flips) on the real package and on the compiled model and diffing every "
